@@ -553,7 +553,7 @@ def _dead_stack_full_raise(ctx: Ctx, prog: Program, f: FuncInfo) -> bool:
             sc = Ctx(prog, "C19", ctx.tier, ctx.repo)
             search.rule_solve_one(sc, prog, want=("R-CAPACITY",))
             capacity.rule_probe_guard(sc, prog)
-            res = not any(x.rule == "R-CAPACITY" for x in sc.findings) and not any(fo < mi for _, fo, mi in sc.floors)
+            res = not any(x.rule == "R-CAPACITY" for x in sc.findings) and not any(fo < mi for _, fo, mi in sc.floors) and not sc.analysis_errors
     except AnalysisError:
         res = False
     prog._dead_stack_full_raise = res  # type: ignore[attr-defined]
